@@ -128,13 +128,61 @@ class Module:
         self.functions = {}
         self.classes = {}
         self.globals = {}        # module-level simple assignments name -> ast expr
+        self.rebound = set()     # module-level names assigned more than once, or written through a `global` statement
         self.imports = {}        # local name -> dotted target
         for n in ast.walk(self.tree):
             for ch in ast.iter_child_nodes(n):
                 ch._parent = n
+            if isinstance(n, ast.Global):
+                self.rebound.update(n.names)
 
     def segment(self, node):
         return ast.get_source_segment(self.text, node)
+
+    def constant_binding(self, name):
+        """the expression a module-level name is bound to, when it is bound exactly once (a module constant) - else None"""
+        if name in self.rebound or name in self.functions or name in self.classes:
+            return None
+        return self.globals.get(name)
+
+    def frozen_display(self, name):
+        """the display (tuple / list / dict) a module-level name is bound to, when the name is bound once and the module never
+        mutates the object (no item store / delete, no mutating method call) - a lookup table; else None"""
+        g = self.constant_binding(name)
+        if not isinstance(g, (ast.Tuple, ast.List, ast.Dict)):
+            return None
+        cache = self.__dict__.setdefault('_frozen', {})
+        if name not in cache:
+            mutated = False
+            for n in ast.walk(self.tree):
+                if isinstance(n, ast.Subscript) and isinstance(n.ctx, (ast.Store, ast.Del)) and isinstance(n.value, ast.Name) and n.value.id == name:
+                    mutated = True
+                if isinstance(n, ast.Call) and isinstance(n.func, ast.Attribute) and isinstance(n.func.value, ast.Name) and n.func.value.id == name \
+                        and n.func.attr in ('append', 'extend', 'insert', 'pop', 'remove', 'clear', 'update', 'setdefault', 'popitem', 'add', 'discard', 'sort', 'reverse'):
+                    mutated = True
+                if isinstance(n, ast.AugAssign) and isinstance(n.target, ast.Name) and n.target.id == name:
+                    mutated = True
+            cache[name] = None if mutated else g
+        return cache[name]
+
+    def namedtuple_fields(self, name):
+        """field names when `name = namedtuple('X', [...])` (or 'a b c' / 'a, b, c') is a module constant - else None"""
+        g = self.constant_binding(name)
+        if not (isinstance(g, ast.Call) and len(g.args) == 2 and not g.keywords):
+            return None
+        fn = unparse(g.func)
+        if isinstance(g.func, ast.Name):
+            fn = self.imports.get(fn, fn).replace(':', '.')       # from collections import namedtuple [as x]
+        elif isinstance(g.func, ast.Attribute) and isinstance(g.func.value, ast.Name):
+            fn = self.imports.get(g.func.value.id, g.func.value.id) + '.' + g.func.attr       # import collections [as x]
+        if fn != 'collections.namedtuple':
+            return None
+        f = g.args[1]
+        if isinstance(f, ast.Constant) and isinstance(f.value, str):
+            return tuple(f.value.replace(',', ' ').split())
+        if isinstance(f, (ast.List, ast.Tuple)) and all(isinstance(x, ast.Constant) and isinstance(x.value, str) for x in f.elts):
+            return tuple(x.value for x in f.elts)
+        return None
 
 
 class Repo:
@@ -200,7 +248,17 @@ class Repo:
         elif isinstance(n, ast.ClassDef):
             self._index_class(m, n, None)
         elif isinstance(n, ast.Assign) and len(n.targets) == 1 and isinstance(n.targets[0], ast.Name):
+            if n.targets[0].id in m.globals:
+                m.rebound.add(n.targets[0].id)
             m.globals[n.targets[0].id] = n.value
+        elif isinstance(n, ast.Assign) and len(n.targets) == 1 and isinstance(n.targets[0], ast.Tuple) and isinstance(n.value, ast.Tuple) \
+                and len(n.targets[0].elts) == len(n.value.elts) and all(isinstance(t, ast.Name) for t in n.targets[0].elts) \
+                and not any(isinstance(v, ast.Starred) for v in n.value.elts):
+            # `_A, _B = 'a', 'b'`: element-wise module-level bindings
+            for t, v in zip(n.targets[0].elts, n.value.elts):
+                if t.id in m.globals:
+                    m.rebound.add(t.id)
+                m.globals[t.id] = v
         elif isinstance(n, ast.Import):
             for a in n.names:
                 m.imports[a.asname or a.name.split('.')[0]] = a.name
